@@ -257,9 +257,10 @@ End Runner.
 
 (** ---- instantiation with the lists generated from the checked tree *)
 From ZV Require Generated.HashFields.
-(** Fields whose zero value GetHash treats like the SetDefaults default (`h.trigramMax != 0 && h.trigramMax !=
-    defaultTrigramMax`: 0 and the default are hashed alike, both by omission). Hand-written; validated by the HashCase
-    correspondence (the generator uses 0, the default and other values). *)
-Definition normed_fields : list string := ["TrigramMax"%string].
+(** Fields whose zero value GetHash treats like the SetDefaults default: GENERATED — the translator recognises the guard
+    `h.f != 0 && h.f != <const equal to the SetDefaults default of F>` (0 and the default are both hashed by omission).
+    Any other guard shape yields the empty list, and the HashCase correspondence (generator uses 0, the default and other
+    values) then reports the difference. *)
+Definition normed_fields : list string := HashFields.zero_is_default_fields.
 Definition c38_mismatches : list c38case -> list N :=
   c38_mismatches_with normed_fields HashFields.int_defaults HashFields.hashed_fields HashFields.read_versions.
